@@ -39,14 +39,51 @@ def next_event(inst, rd, secs=5.0):
     return e, 'err'
 
 
-def read_all_events(inst, data, encoding, bc, blocked, limit=100000):
+def read_all_events(inst, data, encoding, bc, blocked, limit=100000, style=0):
+    """style 0: next() calls; 1: next() for the first record, then a for loop; 2: a for loop left with break after the
+    first record and resumed with a second for loop; 3: one for loop"""
     rd = mciipm.IpmReader(io.BytesIO(data), encoding=encoding, iso_config=bc, blocked=blocked)
     out = []
-    for _ in range(limit):
+    if style == 0:
+        for _ in range(limit):
+            e, k = next_event(inst, rd)
+            out.append(e)
+            if k != 'rec':
+                break
+        return out
+
+    def loop(stop_after=None):
+        n = 0
+        try:
+            with drv.Watchdog(20.0):
+                for rec in rd:
+                    out.append(iev(inst, 'next', out='rec', d=rec) if isinstance(rec, dict) else iev(inst, 'next', out='exc', n=-1))
+                    n += 1
+                    if stop_after and n >= stop_after:
+                        return 'break'
+        except BaseException as ex:  # noqa
+            o = drv.exc_outcome(ex)
+            if o['kind'] == 'liberr':
+                rn = o.get('record_number')
+                e = iev(inst, 'next', b=bytes(o['context'] or b''), out='liberr', n=rn if isinstance(rn, int) else -1)
+            else:
+                e = iev(inst, 'next', out=o['kind'], n=-1)
+            e['_observed'] = o
+            e['_exc'] = ex
+            out.append(e)
+            return 'err'
+        out.append(iev(inst, 'next', out='stop'))
+        return 'stop'
+    if style == 1:
         e, k = next_event(inst, rd)
         out.append(e)
-        if k != 'rec':
-            break
+        if k == 'rec':
+            loop()
+    elif style == 2:
+        if loop(stop_after=1) == 'break':
+            loop()
+    else:
+        loop()
     return out
 
 
